@@ -156,6 +156,33 @@ def _bound_ok_bytes(fn, env, base, bound, node):
     return None
 
 
+def _returns_when_empty(fn, node, base):
+    """an earlier statement of an enclosing block is `if <base>.is_empty() { return ..; }` (or `== 0` on its len)"""
+    def rec(blk):
+        if not isinstance(blk, dict):
+            return False
+        if blk.get("k") == "block":
+            seen_guard = False
+            for st in blk.get("stmts", []):
+                holder = st.get("e") if st.get("k") == "expr" else st.get("init") if st.get("k") == "let" else None
+                if any(x is node for x in A.walk(st)):
+                    if seen_guard:
+                        return True
+                    # descend
+                    for ch in A.walk(st):
+                        if ch is not st and ch.get("k") == "block" and any(x is node for x in A.walk(ch)) and rec(ch):
+                            return True
+                    return False
+                e = st.get("e") if st.get("k") == "expr" else None
+                if isinstance(e, dict) and e.get("k") == "if" and e.get("else") is None:
+                    c = _norm(e["cond"].get("text") or A.text(e["cond"]))
+                    if c in ("%s.is_empty()" % base, "%s.len()==0" % base) and any(x.get("k") == "return" for x in A.walk(e["then"])):
+                        seen_guard = True
+            return False
+        return False
+    return rec(fn["body"])
+
+
 def classify(fn, consts=None):
     env = _types(fn)
     out = []
@@ -194,7 +221,18 @@ def classify(fn, consts=None):
                 iinit = env.get(iname, (None, None))[1] if iname else None
                 it = _norm(iinit.get("text") or A.text(iinit)) if isinstance(iinit, dict) else ""
                 itxt = _norm(idx.get("text") or A.text(idx)) if idx.get("k") != "range" else ""
-                if base and (it.endswith("%%%s.len()" % base) or itxt.endswith("%%%s.len()" % base)):
+                mloc = re.search(r"%(\w+)$", itxt)
+                loc_is_len = False
+                if base and mloc:
+                    li_ = env.get(mloc.group(1), (None, None))[1]
+                    lt_ = _norm(li_.get("text") or A.text(li_)) if isinstance(li_, dict) else ""
+                    loc_is_len = lt_ == "%s.len()" % base
+                    if not loc_is_len:
+                        for m_ in A.walk(fn["body"]):
+                            if m_.get("k") == "match" and isinstance(m_.get("e"), dict) and _norm(m_["e"].get("text") or A.text(m_["e"])) == "%s.len()" % base:
+                                if any(a_["pat"].strip() == mloc.group(1) and any(x is n for x in A.walk(a_["body"])) for a_ in m_["arms"]):
+                                    loc_is_len = True
+                if base and (it.endswith("%%%s.len()" % base) or itxt.endswith("%%%s.len()" % base) or loc_is_len):
                     out.append(("index", n, "ok", "index computed modulo len() of the indexed collection"))
                 else:
                     out.append(("index", n, "untriaged-index", "`%s` (type of the indexed value not established from the file)" % _norm(n.get("text"))))
@@ -210,9 +248,26 @@ def classify(fn, consts=None):
             r = _base_name(n["r"])
             rt = _norm(n["r"].get("text") or A.text(n["r"]))
             mlen = re.match(r"^(\w+)\.len\(\)$", rt)
+            if not mlen and r:
+                # `let len = nodes.len();` / `match nodes.len() { 0 => .., len => nodes[.. % len] }`
+                init_ = env.get(r, (None, None))[1]
+                it_ = _norm(init_.get("text") or A.text(init_)) if isinstance(init_, dict) else ""
+                mlen = re.match(r"^(\w+)\.len\(\)$", it_)
+                if not mlen:
+                    for m_ in A.walk(fn["body"]):
+                        if m_.get("k") == "match" and isinstance(m_.get("e"), dict):
+                            ms_ = re.match(r"^(\w+)\.len\(\)$", _norm(m_["e"].get("text") or A.text(m_["e"])))
+                            if ms_ and any(a_["pat"].strip() == "0" for a_ in m_["arms"]):
+                                for a_ in m_["arms"]:
+                                    if a_["pat"].strip() == r and any(x is n for x in A.walk(a_["body"])):
+                                        out.append(("divide", n, "ok", "divisor is the non-zero arm of a match on len()"))
+                                        mlen = "done"
+                    if mlen == "done":
+                        continue
             if r and consts and consts.get(r):
                 continue
-            if mlen and ("!(%s.is_empty())" % mlen.group(1) in _guards(fn, n) or "!%s.is_empty()" % mlen.group(1) in _guards(fn, n) or "%s.len()>0" % mlen.group(1) in _guards(fn, n)):
+            if mlen and ("!(%s.is_empty())" % mlen.group(1) in _guards(fn, n) or "!%s.is_empty()" % mlen.group(1) in _guards(fn, n) or "%s.len()>0" % mlen.group(1) in _guards(fn, n)
+                         or _returns_when_empty(fn, n, mlen.group(1))):
                 out.append(("divide", n, "ok", "divisor is len() of a collection that the enclosing branch shows to be non-empty"))
                 continue
             out.append(("divide", n, "division-by-unchecked-value", "`%s`" % _norm(n.get("text"))[:80]))
